@@ -170,6 +170,20 @@ func scenarioC17(c *Ctx) {
 			seenID[o.msg.MessageID] = i
 		}
 	}
+	// --- ranges far outside the list: every position outside is REFUSED - the expansion must not crash
+	// on them either (a proposal is expanded by every node and every airgapped machine)
+	for _, rg := range [][2]int{{1 << 40, math.MaxInt64}, {math.MinInt64, math.MaxInt64}, {-(1 << 62), -1}, {listLen, 1 << 62}, {math.MaxInt64 - 1, math.MaxInt64}} {
+		obs, _ := expandObs([]requests.SigningTask{{MessageID: "r", RangeStart: rg[0], RangeEnd: rg[1]}})
+		c.Case("range-outside", true, tasksLine([]requests.SigningTask{{MessageID: "r", RangeStart: rg[0], RangeEnd: rg[1]}}), obs)
+		if obs != "tasks err" {
+			kind := "outside-accepted"
+			if obs == "tasks panic" {
+				kind = "position-panic"
+			}
+			c.Fail(Failure{Property: "C17", Kind: kind, Signature: map[string]interface{}{"kind": kind, "negative": rg[0] < 0},
+				What: fmt.Sprintf("expanding the baked range [%d,%d) does not end in a refusal: %s", rg[0], rg[1], obs), Replay: map[string]interface{}{"range_start": rg[0], "range_end": rg[1]}})
+		}
+	}
 	// --- concurrent callers: the poller expands a proposal while API handlers and the reconstruction
 	// expand others; every caller must still get the spec root of ITS position ---
 	workers, per := 8, 150
